@@ -756,6 +756,15 @@ func (c *Config) ParseTemplates(ctx context.Context, iface *Interface, srcPkg *p
 		}
 	}
 
+	// A value that has stopped changing but is still a template renders to
+	// itself: it refers to nothing but itself (structname: "{{.StructName}}").
+	for name, val := range templateMap {
+		if strings.Contains(*val, "{{") {
+			log.Error().Str("variable-name", name).Str("variable-value", *val).Msg("templated value refers to itself")
+			return ErrInfiniteLoop
+		}
+	}
+
 	return nil
 }
 
